@@ -21,7 +21,8 @@ TECHNIQUE = "exhaustive enumeration of arrival patterns on a P/2 grid x all tie 
 RULE = (
     "n calls with inter-arrival gaps in {0, P/2, P, 3P/2}, limit 1..3, period as float or "
     "timedelta, call duration in {0, P/2, 2P}, optionally one failing call; all orders of timers "
-    "sharing a deadline; non-trivial = at least one call was delayed or more than `limit` calls "
+    "sharing a deadline; sub-family with one caller cancelled at any quiescent point (window / order "
+    "/ outcome of the other calls); non-trivial = at least one call was delayed or more than `limit` calls "
     "arrived within one period"
 )
 ASSUMPTIONS = [
@@ -61,6 +62,17 @@ def programs(tier: str):
                                 "period": period,
                                 "fail": fail,
                             }
+    yield from _cancel_programs(tier)
+
+
+def _cancel_programs(tier: str):
+    """a caller may be cancelled (once) while it waits inside the throttle or while its call runs:
+    the slot accounting of the others must stay right"""
+    n_max = 4 if tier == "quick" else 5
+    for n in range(2, n_max + 1):
+        for gaps in itertools.product(GAPS[:3], repeat=n - 1):
+            for limit in (1, 2):
+                yield {"gaps": list(gaps), "limit": limit, "dur": 0.5, "period": "float", "fail": None, "cancels": 1}
 
 
 def explore_config(tier: str, program) -> dict:
@@ -71,7 +83,7 @@ def execute(program, ch: Chooser) -> Result:  # noqa: C901, PLR0912, PLR0915
     P = PERIODS[program["period"]]
     gaps, limit, dur, fail = [g * P for g in program["gaps"]], program["limit"], program["dur"] * P, program["fail"]
     n = len(gaps) + 1
-    w = World(ch)
+    w = World(ch, cancel_budget=program.get("cancels", 0))
     viols: list[dict] = []
     try:
         starts: list[tuple[int, float]] = []
@@ -111,7 +123,7 @@ def execute(program, ch: Chooser) -> Result:  # noqa: C901, PLR0912, PLR0915
 
         def arrive(idxs):
             for i in idxs:
-                tasks[i] = w.task(call(i), name=f"c{i}")
+                tasks[i] = w.task(call(i), name=f"c{i}", victim=bool(program.get("cancels")))
 
         for a, idxs in groups.items():
             w.loop.call_at(START + a, arrive, idxs)
@@ -125,7 +137,12 @@ def execute(program, ch: Chooser) -> Result:  # noqa: C901, PLR0912, PLR0915
         done = all(i in tasks and tasks[i].done() for i in range(n))
         if hang or not done:
             viols.append(viol("termination", "call-never-finishes", "all calls finish", obs))
+        cancelled_calls = {name for name, _ in w.cancelled_at}
         for i in range(n):
+            if f"c{i}" in cancelled_calls:
+                continue
+            if i not in results and not hang and done:
+                viols.append(viol("outcome", "call-without-outcome", f"call {i} returns the function's outcome", "nothing"))
             if i in results:
                 exp = ("raised", True) if i == fail else ("value", ("r", i))
                 if results[i] != exp:
@@ -138,8 +155,8 @@ def execute(program, ch: Chooser) -> Result:  # noqa: C901, PLR0912, PLR0915
                     viol("window", f"limit={limit}", f"<= {limit} starts in [{s}, {s + P})", {"starts": starts})
                 )
                 break
-        order_arr = [i for i, _ in arrivals]
         order_start = [i for i, _ in starts]
+        order_arr = [i for i, _ in arrivals if f"c{i}" not in {name for name, _ in w.cancelled_at} or i in order_start]
         if order_start != order_arr[: len(order_start)]:
             viols.append(viol("order", "starts-not-in-arrival-order", order_arr, order_start))
         # not delayed when there is room and nobody earlier is waiting
@@ -155,6 +172,8 @@ def execute(program, ch: Chooser) -> Result:  # noqa: C901, PLR0912, PLR0915
             # starts of earlier arrivals that lie in (a - P, a]
             recent = sum(1 for j in earlier if j in start_of and a - P < start_of[j] <= a)
             waiting = any(j not in start_of or start_of[j] > a for j in earlier)
+            if cancelled_calls:
+                break  # "no earlier call waiting" is not well defined around a cancelled waiter
             if recent < limit and not waiting and start_of[i] != a:
                 viols.append(
                     viol(
